@@ -325,7 +325,7 @@ def run(rec, tier, seed):
         phi = 0.6180339887498949
         GAMMAS = GAMMAS + [round(-3 + ((seed * phi * j) % 1.0) * 8, 3) for j in (1, 2)]
         US = US + [round(-1.5 + ((seed * phi * (j + 2)) % 1.0) * 4, 3) for j in (1, 2)]
-    sig = SIGMAS if tier == 'thorough' else SIGMAS[:2]
+    sig = SIGMAS
     with warnings.catch_warnings():
         warnings.simplefilter('ignore')
         for cname in CLOSURES:
